@@ -650,4 +650,165 @@ that are exact on non-representable arguments, so the float-model theorems apply
 restricted to representable numbers (open) -/
 theorem floatMul_fmul53_counterexample : ¬ FloatMul (1 / 2 ^ 53) fmul53 := floatMul_fmul53_fails
 
+/-! ### Phase 5 (goal 1): the float model instantiated with the rounding multiplication `fmul53` -/
+
+/-- the float model with `x·1 = x` demanded only on the numbers satisfying `R`: ∀ multiplications with relative error
+≤ u per product that return `x·1 = x` for every `R`-number, ∀ term lists, ∀ dense calls whose feature values are
+`R`-numbers: every entry is the exact monomial up to `d-1` roundings (`encode_float_model` is the case `R = True`) -/
+theorem encode_float_model_on {R : Rat → Prop} {u : Rat} {fmul : Rat → Rat → Rat} (hf : FloatMulOn R u fmul)
+    (h0 : 0 ≤ u) (h1 : u ≤ 1) (is : List Inter) (kw : List (Char × NsVal))
+    (hne : ∀ t ∈ strTerms is, t ≠ []) (hd : isSparseCall kw = false) (hR : ∀ c, ∀ v ∈ featsDense kw c, R v) :
+    ∃ vs vs' : List Rat,
+      encodeG fmul Cfg.fixed is kw = .ok (.dense ((if constant is ≠ 0 then [constant is] else []) ++ vs)) ∧
+      encode Cfg.fixed is kw = .ok (.dense ((if constant is ≠ 0 then [constant is] else []) ++ vs')) ∧
+      List.Forall₂ (Approx u (maxDeg is - 1)) vs vs' :=
+  encode_float_model_on' hf h0 h1 is kw hne hd hR
+
+/-- the rounding multiplication satisfies the restricted law with `u = 2^-53`: `fmul53 a 1 = a` for every double `a`
+(`Rep53`: integer significand of at most 53 bits, any exponent) and relative error ≤ 2^-53 for EVERY pair of rationals -/
+theorem floatMulOn_fmul53 : FloatMulOn Rep53 (1 / 2 ^ 53) fmul53 := floatMulOn_fmul53'
+
+/-- **goal 1** (dense): ∀ term lists without an empty term, ∀ dense calls whose feature values are doubles: the encoder
+computed with IEEE round-to-nearest-even multiplication (`fmul53`, no exponent range) returns the constant unchanged and
+every other entry equal to the exact monomial times δ, `(1-2^-53)^(d-1) ≤ δ ≤ (1+2^-53)^(d-1)`, d = largest term degree.
+No hypothesis on the multiplication is left — `floatMul_fmul53_counterexample`'s gap is closed -/
+theorem encode_float_fmul53 (is : List Inter) (kw : List (Char × NsVal))
+    (hne : ∀ t ∈ strTerms is, t ≠ []) (hd : isSparseCall kw = false) (hR : ∀ c, ∀ v ∈ featsDense kw c, Rep53 v) :
+    ∃ vs vs' : List Rat,
+      encodeG fmul53 Cfg.fixed is kw = .ok (.dense ((if constant is ≠ 0 then [constant is] else []) ++ vs)) ∧
+      encode Cfg.fixed is kw = .ok (.dense ((if constant is ≠ 0 then [constant is] else []) ++ vs')) ∧
+      List.Forall₂ (Approx (1 / 2 ^ 53) (maxDeg is - 1)) vs vs' :=
+  encode_float_model_on' floatMulOn_fmul53' u53_ok.1 u53_ok.2 is kw hne hd hR
+
+/-- **goal 1** (sparse / string-valued calls): the same names, every value up to `d-1` roundings of `fmul53` -/
+theorem encode_float_fmul53_sparse (is : List Inter) (kw : List (Char × NsVal))
+    (hne : ∀ t ∈ strTerms is, t ≠ []) (hs : isSparseCall kw = true) (hR : ∀ c, ∀ p ∈ featsSparse kw c, Rep53 p.2) :
+    ∃ kvs kvs' : List (String × Rat),
+      encodeG fmul53 Cfg.fixed is kw = .ok (.sparse kvs) ∧ encode Cfg.fixed is kw = .ok (.sparse kvs') ∧
+      List.Forall₂ (PairRel (Approx (1 / 2 ^ 53) (maxDeg is - 1))) kvs kvs' :=
+  encode_float_model_on_sparse' floatMulOn_fmul53' u53_ok.1 u53_ok.2 is kw hne hs hR
+
+/-- the unrestricted law implies the restricted one for every `R`, and the restricted one with `R = True` is the old one -/
+theorem floatMulOn_generalises {u : Rat} {fmul : Rat → Rat → Rat} :
+    (FloatMul u fmul → ∀ R, FloatMulOn R u fmul) ∧ (FloatMulOn (fun _ => True) u fmul → FloatMul u fmul) :=
+  ⟨fun h R => floatMulOn_of_floatMul R h, floatMul_of_floatMulOn_true⟩
+
+/-- non-vacuity: the double nearest to 0.1 is `Rep53`; the restriction is needed (`fmul53 (1/3) 1 ≠ 1/3`), and
+`'xx'` on `x=[0.1]` rounds: the float encoder returns the double 0.010000000000000002, not the exact square -/
+example : Rep53 (3602879701896397 / 36028797018963968) ∧ ¬ (fmul53 (1 / 3) 1 = 1 / 3) := rep53_example
+example : encodeG fmul53 Cfg.fixed [.term ['x', 'x']] [('x', .dense [.num (3602879701896397 / 36028797018963968)])]
+      = .ok (.dense [1441151880758559 / 144115188075855872])
+    ∧ encode Cfg.fixed [.term ['x', 'x']] [('x', .dense [.num (3602879701896397 / 36028797018963968)])]
+      ≠ .ok (.dense [1441151880758559 / 144115188075855872]) := by decide +kernel
+
+/-! ### Phase 5 (goal 2): `_pmf` of both learners read off the source (`Generated/C20LinAlg.lean`) -/
+
+/-- translator obligation (LinUCB): the body of `LinUCBLearner._pmf`, read off the CURRENT source (`θ @ F`,
+`einsum('ij,ij->j', A⁻¹ @ F, F)`, `est + α·np.sqrt(bounds)`, `np.where(values == np.amax(values))[0]`, the returned
+comprehension), computes for EVERY state, every list of action feature vectors, every α and every square-root function the
+model's `LinState.pmf`: the uniform distribution on the maximisers of `θ·f + α·√(fᵀA⁻¹f)` — an edit of those lines breaks this -/
+theorem linucb_predict_source (sq : Rat → Rat) (s : LinState) (fs : List (List Rat)) (alpha : Rat) :
+    runPredict sq Coba.Generated.C20.linucbPredict Coba.Generated.C20.linucbPredictLhs Coba.Generated.C20.linucbPredictTop s fs alpha
+      = some (s.pmf sq alpha fs) := predict_prog_sound rfl
+
+/-- … and the body of `LinTSLearner._pmf` in the branch `self._v == 0` (`μ̂ @ F`, `.round(5)` on both sides of the comparison),
+for every rounding function -/
+theorem lints_predict_source (rnd : Rat → Rat) (s : LinState) (fs : List (List Rat)) (alpha : Rat) :
+    runPredict rnd Coba.Generated.C20.lintsPredict Coba.Generated.C20.lintsPredictLhs Coba.Generated.C20.lintsPredictTop s fs alpha
+      = some (s.pmfTS rnd fs) := predictTS_prog_sound rfl
+
+/-- the one unary numpy function of each body is the one the model means (`np.sqrt` / `.round(5)`), and the bodies were read -/
+theorem predict_source_functions :
+    Coba.Generated.C20.linucbPredictFn = "sqrt" ∧ Coba.Generated.C20.lintsPredictFn = "round5"
+    ∧ Coba.Generated.C20.predictExtracted = true := by decide
+
+/-- hence every prediction of every history, computed with the programs read off the source, is the model's -/
+theorem predict_source_history (g : Rat → Rat) (alpha : Rat) (s : LinState) (es : List LinEvent) :
+    linRunPredict (fun s fs => runPredict g Coba.Generated.C20.linucbPredict Coba.Generated.C20.linucbPredictLhs
+        Coba.Generated.C20.linucbPredictTop s fs alpha) s es = linRunPredict (fun s fs => some (s.pmf g alpha fs)) s es
+    ∧ linRunPredict (fun s fs => runPredict g Coba.Generated.C20.lintsPredict Coba.Generated.C20.lintsPredictLhs
+        Coba.Generated.C20.lintsPredictTop s fs alpha) s es = linRunPredict (fun s fs => some (s.pmfTS g fs)) s es :=
+  ⟨linRunPredict_congr (fun s fs => linucb_predict_source g s fs alpha) s es,
+   linRunPredict_congr (fun s fs => lints_predict_source g s fs alpha) s es⟩
+
+/-- the selection step returns a probability distribution over the actions … -/
+theorem pmf_sum_one (vals : List Rat) (h : vals ≠ []) :
+    (pmfOfValues vals).sum = 1 ∧ (pmfOfValues vals).length = vals.length := ⟨pmf_sum_one' vals h, pmf_length' vals⟩
+
+/-- … action i gets `1/#{j | vals j = vals i}` when no action has a larger value and 0 otherwise (ties share uniformly) -/
+theorem pmf_entry (vals : List Rat) (i : Nat) (hi : i < vals.length) :
+    (pmfOfValues vals)[i]'(by rw [pmf_length']; exact hi)
+      = if ∀ w ∈ vals, w ≤ vals[i] then 1 / ((vals.countP (fun w => w = vals[i]) : Nat) : Rat) else 0 := pmf_entry' vals i hi
+
+/-- … so the support is exactly the set of maximisers -/
+theorem pmf_support_argmax (vals : List Rat) (i : Nat) (hi : i < vals.length) :
+    0 < (pmfOfValues vals)[i]'(by rw [pmf_length']; exact hi) ↔ ∀ w ∈ vals, w ≤ vals[i] := pmf_entry_pos' vals i hi
+
+/-- LinTS compares `est.round(5)` with `np.amax(est).round(5)`: for a monotone rounding and at least one action that is the
+uniform distribution on the maximisers of the ROUNDED estimates -/
+theorem pmfTS_eq_pmfOfValues (rnd : Rat → Rat) (hg : ∀ a b, a ≤ b → rnd a ≤ rnd b) (s : LinState)
+    (fs : List (List Rat)) (h : fs ≠ []) :
+    s.pmfTS rnd fs = pmfOfValues (fs.map (fun f => rnd (s.score f).1)) := pmfTS_eq_pmfOfValues' rnd hg s fs h
+
+/-- LinUCB's whole prediction (not only the scores, `score_perm`) is independent of the layout of the encoded features -/
+theorem linucb_pmf_perm {n : Nat} {s : LinState} (hs : s.WF n) {fs : List (List Rat)} (hf : ∀ f ∈ fs, f.length = n)
+    {p : List Nat} (hp : p.Perm (List.range n)) (sq : Rat → Rat) (alpha : Rat) :
+    (s.perm p).pmf sq alpha (fs.map (permV p)) = s.pmf sq alpha fs := pmf_perm' hs hf hp sq alpha
+
+/-- non-vacuity / ties: three actions, two of them maximal → [1/2, 0, 1/2]; identity is a monotone rounding -/
+example : pmfOfValues [3, 1, 3] = [1 / 2, 0, 1 / 2] ∧ ([3, 1, 3] : List Rat) ≠ [] := by decide +kernel
+example : ∀ a b : Rat, a ≤ b → id a ≤ id b := fun _ _ h => h
+example : (LinState.init 2).WF 2 ∧ [1, 0].Perm (List.range 2) :=
+  ⟨init_wf 2, by decide⟩
+
+/-! ### Phase 5 (goal 3): the equal-length no-collision condition for `outerAll` and whole calls -/
+
+/-- [whole call, at the level of names] `F c` = the feature names of namespace `c`. If for every namespace named by a term
+the names are pairwise distinct, have one common length `L ≥ 1` and start with the namespace letter, and no two terms are
+the same up to regrouping of their letters (`canonTerm`: `xax ↦ xxa`), then the names of ALL monomials of ALL terms
+(`outerAll` over several namespaces included) are pairwise distinct, and each name's length is a multiple of `L` -/
+theorem terms_names_distinct_of_equal_length (F : Char → List String) (L : Nat) (hL : 1 ≤ L) (ts : List (List Char))
+    (hF : ∀ t ∈ ts, ∀ c ∈ t, (F c).Nodup)
+    (hlen : ∀ t ∈ ts, ∀ c ∈ t, ∀ s ∈ F c, s.length = L)
+    (hhd : ∀ t ∈ ts, ∀ c ∈ t, ∀ s ∈ F c, hd s = some c)
+    (hts : (ts.map canonTerm).Nodup) :
+    (termsS strMul "" F ts).Nodup ∧ ∀ n ∈ termsS strMul "" F ts, L ∣ n.length :=
+  termsS_names_nodup F L hL ts hF hlen hhd hts
+
+/-- in the model every prefixed feature name starts with its namespace letter (so that hypothesis is free) -/
+theorem feature_names_start_with_namespace (kw : List (Char × NsVal)) (c : Char) :
+    ∀ p ∈ featsSparse kw c, hd p.1 = some c := featsSparse_hd kw c
+
+/-- [whole call] for every term list and every call: all feature names of the namespaces named by the terms have one
+common length `L ≥ 1`, no two terms coincide up to regrouping, and the constant is absent or `L ∤ 5` (`const` has five
+characters) ⇒ no two named monomials of the call (the constant entry included) share a name -/
+theorem sparse_call_no_collision (L : Nat) (hL : 1 ≤ L) (is : List Inter) (kw : List (Char × NsVal))
+    (hlen : ∀ t ∈ strTerms is, ∀ c ∈ t, ∀ p ∈ featsSparse kw c, p.1.length = L)
+    (hts : ((dedupFirst (strTerms is)).map canonTerm).Nodup)
+    (hconst : constant is = 0 ∨ 5 % L ≠ 0) :
+    ((sparseMonos is kw).map (·.1)).Nodup :=
+  sparse_call_no_collision' L hL is kw hlen (fun _ _ c _ p hp => featsSparse_hd kw c p hp) hts hconst
+
+/-- … as the decidable predicate the driver evaluates, combined with `sparse_faithful_iff_collides`: when `equalLenOK`
+holds, a sparse call (terms non-empty) returns EXACTLY the list of its named monomials — nothing lost, nothing merged -/
+theorem sparse_call_faithful_of_equal_length (L : Nat) (is : List Inter) (kw : List (Char × NsVal))
+    (hne : ∀ t ∈ strTerms is, t ≠ []) (hs : isSparseCall kw = true) (h : equalLenOK L is kw = true) :
+    collides is kw = false ∧ encode Cfg.fixed is kw = .ok (.sparse (sparseMonos is kw)) := by
+  have hc := equalLenOK_no_collision' L is kw h
+  obtain ⟨d, hd, _, h1, _⟩ := sparse_faithful_iff_collides' is kw hne hs
+  exact ⟨hc, by rw [hd, h1 hc]⟩
+
+/-- non-vacuity: `['x','xa','xxa']` on `x={'p':2,'q':3}, a={'k':5}` (names `xp`,`xq`,`ak`, L = 2) meets the condition -/
+example : equalLenOK 2 [.term ['x'], .term ['x', 'a'], .term ['x', 'x', 'a']]
+      [('x', .sparse [(.str "p", .num 2), (.str "q", .num 3)]), ('a', .sparse [(.str "k", .num 5)])] = true
+    ∧ callL [.term ['x'], .term ['x', 'a'], .term ['x', 'x', 'a']]
+      [('x', .sparse [(.str "p", .num 2), (.str "q", .num 3)]), ('a', .sparse [(.str "k", .num 5)])] = 2 := by decide +kernel
+
+/-- each hypothesis is needed: (i) two terms equal up to regrouping (`xxa`, `xax`) list the same monomials twice;
+(ii) with `L = 5` the feature `c`+`onst` is named like the constant entry; (equal lengths: `sparse_faithful_iff_counterexample`) -/
+theorem sparse_call_no_collision_counterexample :
+    collides [.term ['x', 'x', 'a'], .term ['x', 'a', 'x']]
+      [('x', .sparse [(.str "p", .num 2)]), ('a', .sparse [(.str "k", .num 5)])] = true
+    ∧ collides [.num 1, .term ['c']] [('c', .sparse [(.str "onst", .num 2)])] = true := by decide +kernel
+
 end Coba.C20
